@@ -803,6 +803,51 @@ def suite_sweep(env, dis, stats):
 # ------------------------------------------------------------------------------------------------
 # main
 # ------------------------------------------------------------------------------------------------
+def bit_geometry_pass(env, acc, seed, budget_s=150):
+    """every accepted cell with a bit-length cipher or hash, with lengths (and bit offsets) that are NOT whole bytes:
+    the wrappers of these modes switch to other code for such jobs (e.g. the single-buffer C path of SNOW3G-UEA2).
+    Results are compared with the extracted job model and between variants / entry points; acknowledged findings of
+    C01-C03 are set aside."""
+    from . import k1
+    t0 = time.time()
+    M = Material(seed + 91)
+    cells = sorted(c for c, fl in acc.items() if (fl & 2) and (c[0] in BIT_CIPHERS or c[3] in BIT_HASHES)
+                   and c[0] not in AUX_CIPHERS and c[3] not in AUX_HASHES)
+    items = []
+    for k, c in enumerate(cells):
+        it = cell_item(M, k + 1, *c)
+        mode, h = c[0], c[3]
+        if mode in BIT_CIPHERS and it["clen"] > 16:
+            it["clen"] -= 3
+            if mode in (15, 16):
+                it["coff"] += 5
+        if h in BIT_HASHES and it["hlen"] > 16 and not (mode in PAIRS and PAIRS[mode] == h):
+            it["hlen"] -= 5
+        it["_stream"], it["_valid"], it["_iv"] = "c06-bits", True, "rnd"
+        items.append(it)
+    eng = k1.Engine(PID, "quick", seed, env["mtools"])
+    known = k1.parse_known("C01") + k1.parse_known("C02") + k1.parse_known("C03")
+    out, n = [], 0
+    for lo in range(0, len(items), 250):
+        if time.time() - t0 > budget_s:
+            break
+        chunk = items[lo:lo + 250]
+        try:
+            model, pr, dis = eng.eval_items(chunk, 1, None, None)
+        except Exception as ex:
+            log("bit-geometry pass: chunk failed: %r" % (ex,))
+            continue
+        n += len(chunk)
+        byid = {it["id"]: it for it in chunk}
+        for d in dis:
+            if any(k1.known_match(cons, d["attrs"]) for cons, _ in known):
+                continue
+            it = byid[d["id"]]
+            out.append(dict(work_item=k1.item_line(it), attrs=dict(d["attrs"]), paths=[list(p) for p in d["paths"]][:12],
+                            outcome=d.get("outcome"), model=model.get(d["id"])))
+    return out, n, len(cells)
+
+
 def targeted_search(env, acc, diag, seed, budget_s=240):
     """failing-input search when a table/wrapper obligation breaks: the wrappers named by the diagnosis may differ
     from the named algorithm only on part of their input space (a fallback branch inside the wrapper).  Every cell of
@@ -995,6 +1040,13 @@ def main(tier, seed):
         stats.update(p.stats)
     if not env["init_failure"]:
         suite_sweep(env, dis, stats)
+    bitfind, nbit, nbitcells = [], 0, 0
+    if not env["init_failure"]:
+        try:
+            bitfind, nbit, nbitcells = bit_geometry_pass(env, acc, seed)
+        except Exception as ex:
+            log("bit-geometry pass failed: %r" % (ex,))
+        stats["bit_geometry_items"] = nbit
     json.dump(dis, open(os.path.join(env["work"], "disagreements.json"), "w"))
     # ---- triage: acknowledged findings are set aside by cell
     unexplained, hits = [], collections.Counter()
@@ -1085,6 +1137,21 @@ def main(tier, seed):
         res.violation(rp, note="%s: %s on %s (%d results; kinds %s)" % ("%s %s" % key, d["kind"], rp["cell_name"], len(ds),
                                                                         ",".join(sorted(rp["kinds"]))),
                       name="%s_%s" % key)
+    bycell = {}
+    for f in bitfind:
+        a = f["attrs"]
+        bycell.setdefault((a["cipher"], a["hash"], a["class"], a["field"]), f)
+    for (cm, hh, cls, fld), f in list(bycell.items())[:8]:
+        a = f["attrs"]
+        cell = (a["cipher"], a["klen"], a["dir"], a["hash"], a["order"])
+        res.violation(dict(property=PID, what="bit-geometry", cell=dict(cipher_mode=cell[0], key_len=cell[1], direction=cell[2], hash_alg=cell[3],
+                                                                      chain_order=cell[4]), cell_name=cell_name(cell),
+                           work_item=f["work_item"], harness="k1_algo", attrs=a, paths=f["paths"], library_outcome=f["outcome"],
+                           model_outcome=f["model"], kinds={"model": 1}, validation=dict(light=True, full=True),
+                           note="job with a bit length / bit offset that is not a whole number of bytes"),
+                      note="%s: class %s on %s field %s (bit-geometry pass)" % (cell_name(cell), cls, a["vars"], fld),
+                      name="bits_%d_%d_%s" % (cm, hh, re.sub(r"[^A-Za-z0-9]+", "_", str(fld))))
+        clusters[("bits", "%d/%d" % (cm, hh))] = [f]
     groups = clusters
     if len(cl) > 12:
         log("note: %d more clusters of disagreements not written as replays" % (len(cl) - 12))
